@@ -58,6 +58,18 @@ type jIT struct {
 	Zones    []string `json:"zones"`
 	Reserved int      `json:"reserved_capacity,omitempty"`
 	Unavail  bool     `json:"one_offering_unavailable,omitempty"`
+	// offerings that override the type's capacity and/or overhead (computeAllocatable groups)
+	Overrides []jOverride `json:"override_offerings,omitempty"`
+}
+
+type jOverride struct {
+	Zone        string `json:"zone"`
+	Available   bool   `json:"available"`
+	CPU         int    `json:"capacity_cpu,omitempty"`
+	MemMi       int    `json:"capacity_memory_mi,omitempty"`
+	Ext         int    `json:"capacity_extended_widgets,omitempty"`
+	OverheadCPU int    `json:"overhead_kube_reserved_cpu_m,omitempty"`
+	OverheadMem int    `json:"overhead_system_reserved_memory_mi,omitempty"`
 }
 
 type jPod struct {
@@ -215,6 +227,29 @@ func genWorld(r *kit.Rand, thorough bool) jWorld {
 			it.Reserved = r.Range(1, 2)
 		}
 		it.Unavail = r.Chance(1, 6)
+		if r.Chance(2, 5) {
+			for k := r.Range(1, 2); k > 0; k-- {
+				o := jOverride{Zone: fmt.Sprintf("test-zone-%d", 3+k), Available: r.Chance(3, 4)}
+				switch r.Intn(5) {
+				case 0:
+					o.CPU = cpu * r.Range(1, 3) // equal to the base value at x1: an override that changes nothing
+				case 1:
+					o.MemMi = cpu*2048 + kit.Pick(r, []int{-512, 0, 1024})
+				case 2:
+					o.Ext = r.Range(1, 4)
+				case 3:
+					o.CPU, o.Ext = cpu+1, r.Range(1, 2)
+				}
+				if r.Chance(1, 2) || (o.CPU == 0 && o.MemMi == 0 && o.Ext == 0) {
+					if r.Bool() {
+						o.OverheadCPU = kit.Pick(r, []int{50, 100, 250})
+					} else {
+						o.OverheadMem = kit.Pick(r, []int{10, 64})
+					}
+				}
+				it.Overrides = append(it.Overrides, o)
+			}
+		}
 		w.Catalog = append(w.Catalog, it)
 	}
 	nNodes := r.Range(1, lo.Ternary(thorough, 7, 5))
@@ -340,6 +375,35 @@ func buildIT(j jIT, gate bool) *cloudprovider.InstanceType {
 				v1.CapacityTypeLabelKey: v1.CapacityTypeReserved, corev1.LabelTopologyZone: j.Zones[0],
 				cloudprovider.ReservationIDLabel: "r-" + j.Name}),
 		})
+	}
+	for _, ov := range j.Overrides {
+		o := cloudprovider.Offering{Available: ov.Available, Price: price / 4,
+			Requirements: scheduling.NewLabelRequirements(map[string]string{
+				v1.CapacityTypeLabelKey: v1.CapacityTypeOnDemand, corev1.LabelTopologyZone: ov.Zone})}
+		co := corev1.ResourceList{}
+		if ov.CPU > 0 {
+			co[corev1.ResourceCPU] = *resource.NewQuantity(int64(ov.CPU), resource.DecimalSI)
+		}
+		if ov.MemMi > 0 {
+			co[corev1.ResourceMemory] = *resource.NewQuantity(int64(ov.MemMi)<<20, resource.BinarySI)
+		}
+		if ov.Ext > 0 {
+			co["c18.example/widget"] = *resource.NewQuantity(int64(ov.Ext), resource.DecimalSI)
+		}
+		if len(co) > 0 {
+			o.CapacityOverride = co
+		}
+		if ov.OverheadCPU > 0 || ov.OverheadMem > 0 {
+			oo := &cloudprovider.InstanceTypeOverhead{}
+			if ov.OverheadCPU > 0 {
+				oo.KubeReserved = corev1.ResourceList{corev1.ResourceCPU: *resource.NewMilliQuantity(int64(ov.OverheadCPU), resource.DecimalSI)}
+			}
+			if ov.OverheadMem > 0 {
+				oo.SystemReserved = corev1.ResourceList{corev1.ResourceMemory: *resource.NewQuantity(int64(ov.OverheadMem)<<20, resource.BinarySI)}
+			}
+			o.OverheadOverride = oo
+		}
+		ofs = append(ofs, o)
 	}
 	return fake.NewInstanceType(j.Name, fake.WithResources(rl(int64(j.CPU)*1000, int64(j.CPU)*2048, 20)), fake.WithOfferings(ofs...))
 }
@@ -588,10 +652,9 @@ func newWorld(j jWorld) *world {
 		}
 	}
 	w.cluster.SetSynced(true)
-	// warm the memoised parts of the catalogue: Allocatable() computes once behind sync.Once
-	for _, it := range its {
-		_ = it.Allocatable()
-	}
+	// NOTE: nothing in the harness calls Allocatable()/AllocatableOfferingsList() on the catalogue: the lazily
+	// computed allocatable groups (sync.Once precompute) are first evaluated by the code under test, so that the
+	// digest taken before the first run sees the provider's maps as the provider built them.
 	// candidates, computed once and reused by every simulation (as the disruption methods do)
 	cands, err := disruption.GetCandidates(w.ctx, w.cluster, w.c, w.rec, w.clk, w.cp, func(context.Context, *disruption.Candidate) bool { return true }, disruption.GracefulDisruptionClass, w.queue)
 	if err != nil {
